@@ -168,7 +168,11 @@ func (g *registrar) exec(res *regResult) {
 			mr.sim.Count(cRegFail)
 		case strings.HasPrefix(op.Fail, "refl:"):
 			j, _ := strconv.Atoi(reflJ(op.Fail))
-			b.refl.setFail(j, strings.HasSuffix(op.Fail, "c")) // "refl:<j>c": the stream ends early with status OK
+			if strings.HasSuffix(op.Fail, "e") {
+				b.refl.setErrReply(j) // "refl:<j>e": that request is answered with an ErrorResponse, the stream lives on
+			} else {
+				b.refl.setFail(j, strings.HasSuffix(op.Fail, "c")) // "refl:<j>c": the stream ends early with status OK
+			}
 			defer b.refl.setFailAfter(-1)
 			mr.sim.Count(cRegFail)
 		}
